@@ -27,6 +27,12 @@ STORES = {
 }
 
 PROPS = {
+    "C20": {
+        "tiers": tiers(2500, 80000, quick_budget=40),
+        "rule": "rapid-generated workload: 0-5 registrations (plain/context-aware, sync/Async, Sequential, Once, filters; some panic on chosen invocations, some cancel the publish context), 1-2 publisher tasks x 1-4 publishes with absent / live / already-cancelled contexts, optional persistence through a fault-injecting decorator (k-th Append fails, or blocks until a 10 ms simulated persistence timeout), + choice tape; the bus is observed either by a token recorder (every start callback returns a context carrying a fresh token; every callback logs the tokens it sees) or by the real otel.Observability on an SDK TracerProvider with a synchronous SpanRecorder and a ManualReader. Faults = handler panics, context cancellations, append failures/timeouts. Every run is non-trivial; distinct = (scenario shape, schedule trace hash, history hash).",
+        "components": dict(REAL_BUS, **{"otel.Observability": "real (instrumented copy) on the real OpenTelemetry SDK (TracerProvider + tracetest.SpanRecorder, MeterProvider + ManualReader)", "event store": "MemoryStore behind the fault-injecting decorator"}),
+        "assumptions": COMMON_ASSUME + ["an invocation is linked to the handler-start callback that precedes it on the same simulated task"],
+    },
     "C19": {
         "tiers": tiers(3000, 100000),
         "rule": "rapid-generated batches of 1-12 state-protocol messages built with all eight helper constructors x option subsets (WithTxID, WithTimestamp, WithAutoTimestamp under the simulated clock, WithEntityType incl. the empty override) x three entity types x seven keys (unicode, separator, quotes), published on a persistent bus over MemoryStore / SQLite / durable-streams and read back; the stored JSON is checked for the protocol's field names and the built content; each event is then applied to a materializer, a third of them after corrupting the stored bytes on the read path (bit flip, truncation, torn tail, bytes of another event, 23 hand-written malformed documents, random byte strings). Oracle: Apply never panics; an error leaves collections and LastOffset untouched; success changes state only as an independent decoder of the protocol says. Every run is non-trivial; distinct = (scenario, history hash).",
